@@ -41,6 +41,11 @@ Families
                features and compute_hedge(exotic, hedge=[stock, listed]) always follow the CURRENT underlier grid.
   payoff_grid  ALL scripted paths: American binary / lookback payoffs agree with the last step of the library's own
                running-extremum features (max_moneyness, Barrier) over the same T points.
+  payoff_last_point  European / European binary / variance swap / forward start payoffs over the (M, dt) alphabet
+               (non-integer ratios, quotients rounding below an integer): equal to the reference payoff on the LAST
+               registered grid point, also after only that point was moved.
+  multi_hedge  H = 2, 3 hedging instruments with state-independent inputs and a Linear model with distinct rows:
+               hedge[:, h, t] == model(get_input(d, t))[h], last column = previous one.
 """
 from __future__ import annotations
 
@@ -1312,6 +1317,140 @@ def payoff_grid(ctx, block):
 
 
 # ----------------------------------------------------------------------------
+# payoffs are read at the LAST registered grid point
+# ----------------------------------------------------------------------------
+
+def _terminal_payoff_ref(kind, call, K, S, dt):
+    """Reference payoff from the definition, on the registered buffer S (N, T)."""
+    ST = S[:, -1]
+    if kind == "european":
+        return torch.relu(ST - K) if call else torch.relu(K - ST)
+    if kind == "european_binary":
+        return (ST >= K).to(S.dtype) if call else (ST <= K).to(S.dtype)
+    if kind == "variance_swap":
+        lr = (S[:, 1:] / S[:, :-1]).log()
+        return (lr * lr).mean(dim=1) / dt - K
+    if kind == "forward_start":          # start = 0
+        return torch.relu(ST / S[:, 0] - K)
+    raise KeyError(kind)
+
+
+@family
+def payoff_last_point(ctx, block):
+    import pfhedge.instruments as I
+    dtype = DT[block["dtype"]]
+    eps = torch.finfo(dtype).eps
+    kind, call, K = block["route"], block.get("call", True), block["strike"]
+    torch.manual_seed(0)
+    for (M, dt, form, k) in block["cases"]:
+        T = R.expected_points(M, dt)[0]
+        mini = dict(block, cases=[[M, dt, form, k]])
+        p = market.primary("brownian", dtype=dtype, dt=dt, sigma=0.5)
+        if kind == "european":
+            d = I.EuropeanOption(p, call=call, strike=K, maturity=M)
+        elif kind == "european_binary":
+            d = I.EuropeanBinaryOption(p, call=call, strike=K, maturity=M)
+        elif kind == "variance_swap":
+            d = I.VarianceSwap(p, strike=K, maturity=M)
+        else:
+            d = I.EuropeanForwardStartOption(p, strike=K, maturity=M, start=0.0)
+        d.simulate(n_paths=3)
+        S = p.spot.clone()
+        if tuple(S.shape) != (3, T):
+            continue    # grid_steps' business
+        rounding = "integer" if R.expected_points(M, dt)[1] == "integer" else "noninteger"
+        below = rounding == "integer" and M / dt < k
+        for stage in ("simulated", "last_point_moved"):
+            if stage == "last_point_moved":
+                S2 = S.clone()
+                S2[:, -1] = S[:, -1] * (1.5 if call else 0.5) + (0.25 if call else 0.0)     # across the strike
+                p.register_buffer("spot", S2)
+            cur = p.spot
+            pay = d.payoff()
+            ref = _terminal_payoff_ref(kind, call, K, cur, dt)
+            ctx.tick(1, nontrivial=1 if (rounding == "noninteger" or below) else 0)
+            if kind == "variance_swap":
+                # log-return r_t = log S_{t+1} - log S_t (or log of the ratio): |error| <= ~2*eps*max|log S| + eps*|r|;
+                # squared, averaged and divided by dt: 2*max|r|*that/dt
+                lr_ = (cur[:, 1:] / cur[:, :-1]).log().abs().max()
+                tol = 16 * eps * (cur.log().abs().max() + lr_) * lr_ / dt + 4 * eps * (ref.abs() + 1)
+            elif kind == "forward_start":
+                tol = 4 * eps * (ref.abs() + 1)
+            else:
+                tol = 2 * eps * (ref.abs() + K)
+            if tuple(pay.shape) != (3,) or not bool(((pay - ref).abs() <= tol).all()):
+                earlier = [j for j in range(T - 1) if kind in ("european", "european_binary") and tuple(pay.shape) == (3,) and
+                           bool(((pay - _terminal_payoff_ref(kind, call, K, cur[:, :j + 1], dt)).abs() <= tol).all())]
+                c = f"read_at_step_T{earlier[-1] - (T - 1):+d}" if earlier else "not_the_terminal_payoff"
+                c += "_quotient_rounds_below_integer" if below else f"_{rounding}_ratio"
+                ctx.violation(type(d).__name__ + ".payoff", c,
+                              f"{type(d).__name__}({'call' if call else 'put'}, K={K}, maturity={M!r} [{form}, k={k}], dt={dt!r}), grid of "
+                              f"T={T} points ({stage}): payoff {pay.tolist()} but the last registered price {cur[:, -1].tolist()} gives "
+                              f"{ref.tolist()} (M/dt float quotient {M / dt!r})", observed=pay.tolist(), expected=ref.tolist(), block=mini)
+                break
+        ctx.outcome((kind, T, rounding))
+
+
+# ----------------------------------------------------------------------------
+# several hedging instruments, state-independent features: hedge[:, h, t] = model(features at t)[h]
+# ----------------------------------------------------------------------------
+
+@family
+def multi_hedge(ctx, block):
+    import pfhedge.instruments as I
+    from pfhedge.nn import Hedger
+    dtype = DT[block["dtype"]]
+    eps = torch.finfo(dtype).eps
+    H, inputs = block["H"], block["inputs"]
+    torch.manual_seed(0)
+    lin = torch.nn.Linear(len(inputs), H).to(dtype)
+    with torch.no_grad():      # dyadic, all rows different
+        lin.weight.copy_(torch.tensor([[(1 + h) * (1 if j == 0 else -0.5) for j in range(len(inputs))] for h in range(H)], dtype=dtype))
+        lin.bias.copy_(torch.tensor([0.25 * h for h in range(H)], dtype=dtype))
+    for (M, dt, form, k) in block["cases"]:
+        T = R.expected_points(M, dt)[0]
+        if T < 3:
+            continue
+        mini = dict(block, cases=[[M, dt, form, k]])
+        A = market.primary("brownian", dtype=dtype, dt=dt)
+        d = I.EuropeanOption(A, maturity=M, strike=1.0)
+        d.simulate(n_paths=2)
+        others = []
+        for h in range(1, H):
+            if block["hedge"] == "stocks" or h > 1:
+                q = market.primary("brownian", dtype=dtype, dt=dt, sigma=0.1 * (h + 2))
+                q.simulate(n_paths=2, time_horizon=M)
+                others.append(q)
+            else:
+                lo = I.EuropeanOption(A, maturity=M, strike=1.125)
+                lo.list(lambda o: torch.relu(o.ul().spot - 1.125) + 0.25 * o.ul().spot)
+                others.append(lo)
+        hl = [A] + others
+        hedger = Hedger(lin, inputs)
+        with torch.no_grad():
+            h_ = hedger.compute_hedge(d, hedge=hl)
+            per_step = torch.cat([lin(hedger.get_input(d, t)) for t in range(T)], dim=1)     # (N, T, H)
+        ctx.tick(1, nontrivial=1)
+        if tuple(h_.shape) != (2, H, T):
+            ctx.violation("Hedger.compute_hedge", f"shape_H{H}", f"hedge shape {tuple(h_.shape)} for H={H}, T={T}",
+                          observed=list(h_.shape), expected=[2, H, T], block=mini)
+            continue
+        want = per_step.transpose(1, 2).clone()          # (N, H, T): position in instrument h at step t
+        want[:, :, -1] = want[:, :, -2]                   # no trade at maturity
+        err = (h_ - want).abs()
+        tol = 8 * eps * (want.abs() + 1)
+        ctx.outcome((H, tuple(inputs), T))
+        if bool((err > tol).any()):
+            n_, hh, tt = [int(x) for x in (err > tol).nonzero()[0]]
+            src = [(hh2, t2) for hh2 in range(H) for t2 in range(T) if abs(float(h_[n_, hh, tt] - per_step[n_, t2, hh2])) <= float(tol[n_, hh, tt])]
+            ctx.violation("Hedger.compute_hedge", f"H{H}_entry_not_model_of_features_at_that_step",
+                          f"H={H} hedging instruments ({block['hedge']}), state-independent inputs {inputs}, T={T} (dt={dt!r}): "
+                          f"hedge[{n_}, {hh}, :] = {h_[n_, hh].tolist()} but model(features at step t)[{hh}] = {want[n_, hh].tolist()}"
+                          + (f"; entry ({hh}, {tt}) equals the model output (instrument, step) = {src[0]}" if src else ""),
+                          observed=h_[n_, hh].tolist(), expected=want[n_, hh].tolist(), block=mini)
+
+
+# ----------------------------------------------------------------------------
 
 def _chunks(cases, n):
     return [cases[i:i + n] for i in range(0, len(cases), n)]
@@ -1350,7 +1489,10 @@ def run(ctx):
              "(A, B) configurations x 2 input lists; non-trivial = operations after the hedger saw the other derivative.  listed_shared: every operation sequence of "
              "length <= 3 (4) over 4 operations x dt; non-trivial = states after the underlier was re-simulated by someone "
              "else.  payoff_grid: all 3^T paths (T = 2..4 (6)) x 3 strikes x call/put x dtype; non-trivial = paths whose "
-             "extremum touches the barrier at step 0 only")
+             "extremum touches the barrier at step 0 only.  payoff_last_point: all (M, dt) pairs plus the k <= 500 (3000) pairs whose "
+             "float quotient rounds below k x 6 payoff variants (full set for the European call, reduced for the others in "
+             "quick) x {as simulated, last point moved}; non-trivial = non-integer ratio or quotient below the integer.  "
+             "multi_hedge: (M, dt) with 2 <= k <= 5 (12) x H in {2, 3} x 2 input lists x 2 hedge compositions")
     ctx.assume("expected number of points computed with exact Fractions on the float arguments; 'integer' = within "
                "4*2^-52*k of k; no enumerated pair lies between that and 1e-6 of an integer (asserted)")
     ctx.assume("the number of steps does not depend on the random draws (seed fixed, values unused)")
@@ -1571,9 +1713,29 @@ def run(ctx):
             for dtype in ("float64", "float32"):
                 blocks.append(("payoff_grid", {"T": T_, "A": [0.75, 1.0, 1.25], "strike": K_, "dtype": dtype}))
 
+    # payoffs are read at the last registered point: every (M, dt) incl. non-integer ratios and quotients rounding below k
+    below_pairs = [c for dsym in dts for c in long_pairs(dsym, K + 1, ctx.pick(500, 3000), only_sensitive=True) if c[0] / c[1] < c[3]]
+    ctx.add("payoff_pairs_quotient_below_integer", len(below_pairs) + len([c for c in all_pairs if c[0] / c[1] < c[3] and R.expected_points(c[0], c[1])[1] == "integer"]))
+    for route, call in (("european", True), ("european", False), ("european_binary", True), ("european_binary", False),
+                        ("variance_swap", True), ("forward_start", True)):
+        main = route == "european" and call
+        cases = (all_pairs + below_pairs) if (main or ctx.thorough) else (slow_pairs if route.startswith("european") else small_pairs)
+        for dtype in (("float64", "float32") if (main or ctx.thorough) else ("float64",)):
+            for ch in _chunks(cases, 500):
+                blocks.append(("payoff_last_point", {"route": route, "call": call, "strike": 0.04 if route == "variance_swap" else 1.0,
+                                                     "dtype": dtype, "cases": ch}))
+    # H >= 2 hedging instruments with state-independent inputs
+    mh_cases = [c for c in small_pairs if c[3] >= 2 and c[3] <= ctx.pick(5, 8)] if ctx.quick else [c for c in all_pairs if 2 <= c[3] <= 12]
+    for H_ in (2, 3):
+        for inputs in (["time_to_maturity"], ["log_moneyness", "time_to_maturity"]):
+            for hedge in ("stocks", "stock+listed"):
+                for ch in _chunks(mh_cases, 200):
+                    blocks.append(("multi_hedge", {"H": H_, "inputs": inputs, "hedge": hedge, "dtype": "float64", "cases": ch}))
+
     if ctx.thorough:
         for name in ("grid_steps", "ttm", "grid_use", "cross_dt", "resimulate", "long_grid", "local_vol", "swap",
-                     "forward_start", "hedge_grids", "tensor_dt", "hedger_reuse", "listed_shared", "payoff_grid"):
+                     "forward_start", "hedge_grids", "tensor_dt", "hedger_reuse", "listed_shared", "payoff_grid",
+                     "payoff_last_point", "multi_hedge"):
             ctx.run_parallel(name, [b for n, b in blocks if n == name])
     else:
         for name, b in blocks:
